@@ -17,9 +17,9 @@ In words:
 * `change_dir` opens the new directory FIRST, then closes the old one with `.unwrap()`, and holds the new handle
   (`change_dir_eq`);
 * `open_dir`, `open_file_in_dir`, `open_root_dir`, `open_volume` are the manager's call, the handle wrapped;
-  `delete_file_in_dir` is the manager's call; `find_directory_entry`, `make_dir_in_dir`, `iterate_dir`,
-  `iterate_dir_lfn`, whose manager methods `Gen/FunsMgr.lean` does not contain, pass their arguments and the result
-  through to whatever the manager method is (`pass_through`).
+  `delete_file_in_dir`, `find_directory_entry`, `make_dir_in_dir` are the manager's call (the last two from
+  `Gen/FunsMgr2.lean`); `iterate_dir`, `iterate_dir_lfn`, whose callback the wrapper keeps abstract, pass their arguments
+  and the result through to whatever the manager method is (`pass_through`).
 
 `FlushOK` is the hypothesis of the manager-level `flush_file` / `close_file` theorems (`Props/C02GenM.lean`).
 Proofs: `Sdmmc.Lemmas.GenWrap`, `Sdmmc.Lemmas.GenWrapRaii`.
@@ -98,24 +98,24 @@ theorem open_root_dir_eq (v : Nat) : FunsWrap.Volume_open_root_dir v = Wrap.Volu
 theorem open_volume_eq (i : Nat) : FunsWrap.VolumeManager_open_volume i = Wrap.openVolume i :=
   Lemmas.GenWrapRaii.open_volume_eq i
 
-/-- `find_directory_entry`, `make_dir_in_dir`, `iterate_dir`, `iterate_dir_lfn`: whatever the manager's method is
-(`impl`; the callback type `F` and the LFN buffer type `B` are abstract), the wrapper is that method on the wrapper's
-handle. -/
+/-- `Directory::find_directory_entry`: the manager's method (`Gen/FunsMgr2.lean`, `Props/C06GenMgr.lean`) on the
+wrapper's handle; with the model, `call (findDirectoryEntry d name)`. -/
+theorem find_directory_entry_eq (d : Nat) (name : List Nat) :
+    FunsWrap.Directory_find_directory_entry d name = Wrap.Directory.findDirectoryEntry d name :=
+  Lemmas.GenWrapRaii.find_directory_entry_eq d name
+/-- `Directory::make_dir_in_dir` (`Props/C03GenMgr.lean`). -/
+theorem make_dir_in_dir_eq (d : Nat) (name : List Nat) :
+    FunsWrap.Directory_make_dir_in_dir d name = Wrap.Directory.makeDirInDir d name :=
+  Lemmas.GenWrapRaii.make_dir_in_dir_eq d name
+
+/-- `iterate_dir`, `iterate_dir_lfn`: whatever the manager's method is (`impl`; the callback type `F` and the LFN buffer
+type `B` are abstract), the wrapper is that method on the wrapper's handle.  (`Gen/FunsMgr2.lean` has the two manager
+methods with the callback as the list of its calls, `Props/C06GenMgr.lean`; the wrapper keeps the callback abstract.) -/
 theorem pass_through :
-    (∀ (impl : Nat → List Nat → M DirEntry) d name, FunsWrap.Directory_find_directory_entry impl d name = impl d name) ∧
-    (∀ (impl : Nat → List Nat → M Unit) d name, FunsWrap.Directory_make_dir_in_dir impl d name = impl d name) ∧
     (∀ (F : Type) (impl : Nat → F → M Unit) d func, FunsWrap.Directory_iterate_dir impl d func = impl d func) ∧
     (∀ (B F : Type) (impl : Nat → B → F → M B) d buf func,
       FunsWrap.Directory_iterate_dir_lfn impl d buf func = impl d buf func) :=
   Lemmas.GenWrapRaii.pass_through
-
-/-- In particular, with the model's manager methods for `impl`, they are the model's wrappers. -/
-theorem pass_through_model (d : Nat) (name : List Nat) :
-    FunsWrap.Directory_find_directory_entry (fun d n => Wrap.call (Model.findDirectoryEntry d n)) d name =
-      Wrap.Directory.findDirectoryEntry d name ∧
-    FunsWrap.Directory_make_dir_in_dir (fun d n => Wrap.call (Model.makeDirInDir d n)) d name =
-      Wrap.Directory.makeDirInDir d name :=
-  ⟨rfl, rfl⟩
 
 /-! ### Evaluated examples -/
 
@@ -152,6 +152,13 @@ example : (FunsWrap.Volume_Drop_drop 0 mgrD).1 = .ok () ∧ (FunsWrap.Volume_Dro
     (FunsWrap.File_Drop_drop 1 { mgr with locked := true }).1 = .ok () ∧
     (FunsWrap.File_Drop_drop 1 { mgr with locked := true }).2.files.map (·.rawFile) = [1, 2] := by
   refine ⟨?_, ?_, ?_, ?_, ?_, ?_, ?_, ?_⟩ <;> decide +kernel
+
+/-- `find_directory_entry` / `make_dir_in_dir` through the wrapper (now whole: wrapper and manager method both
+translated): `SUB` is found in cluster 6; making it again is `DirAlreadyExists`; with the manager borrowed `LockError`. -/
+example : (match (FunsWrap.Directory_find_directory_entry 4 [83, 85, 66] mgrD).1 with | .ok e => e.cluster | _ => 0) = 6 ∧
+    (FunsWrap.Directory_make_dir_in_dir 4 [83, 85, 66] mgrD).1 = .err .DirAlreadyExists ∧
+    (FunsWrap.Directory_make_dir_in_dir 4 [65] { mgrD with locked := true }).1 = .err .LockError := by
+  refine ⟨?_, ?_, ?_⟩ <;> decide +kernel
 
 /-- `FlushOK` holds of the example managers. -/
 example : FlushOK mgr ∧ FlushOK mgrD := by
